@@ -30,6 +30,7 @@ import (
 	"runtime"
 	"runtime/debug"
 	"sort"
+	"strconv"
 	"strings"
 	"sync"
 	"time"
@@ -1373,8 +1374,69 @@ func c16CheckHist(c *core.Ctx, cs *c16HistCase, suffix string) (*c16Outcome, str
 			c.Mismatch("corr:C16.entitled", req, impl, model, cs)
 			return o, "corr"
 		}
+		c16VmAdd(c, len(cs.Readers), c16Toks(cs.Ops), ent)
 	}
 	return o, ""
+}
+
+// c16VmCases: histories with the entitlement sets computed in Go, re-evaluated
+// by the model inside coqc with vm_compute (cases.v).
+var c16VmCases []string
+
+func c16VmAdd(c *core.Ctx, nreaders int, toks string, ent [][]int) {
+	if len(c16VmCases) >= 60 || toks == "_" || toks == "" {
+		return
+	}
+	var ops []string
+	for _, t := range strings.Split(toks, ",") {
+		arg := "0"
+		if len(t) > 1 {
+			v, err := strconv.ParseInt(t[1:], 16, 32)
+			if err != nil {
+				return
+			}
+			arg = strconv.FormatInt(v, 10)
+		}
+		switch t[0] {
+		case 'r':
+			ops = append(ops, "OReadRows "+arg+" 1")
+		case 't':
+			ops = append(ops, "OReadTyped "+arg+" 1")
+		case 'k':
+			ops = append(ops, "OClone "+arg)
+		case 's':
+			ops = append(ops, "OSeek "+arg+" 0")
+		case 'c':
+			ops = append(ops, "OClose "+arg)
+		case 'x':
+			ops = append(ops, "OChurn 77")
+		case 'g':
+			ops = append(ops, "OGC")
+		default:
+			return
+		}
+	}
+	var sets []string
+	for _, e := range ent {
+		xs := make([]string, len(e))
+		for i, b := range e {
+			xs[i] = strconv.Itoa(b)
+		}
+		sets = append(sets, "["+strings.Join(xs, ";")+"]")
+	}
+	c16VmCases = append(c16VmCases, fmt.Sprintf("(%d, [%s], [%s])", nreaders, strings.Join(ops, "; "), strings.Join(sets, "; ")))
+}
+
+func c16VmWrite(c *core.Ctx) {
+	if len(c16VmCases) == 0 {
+		return
+	}
+	c.Vm("From Coq Require Import List Bool Arith.\nFrom PQ Require Import Conc.Ownership.\nImport ListNotations.")
+	c.Vm("Definition cases : list (nat * list op * list (list nat)) := [\n  " + strings.Join(c16VmCases, ";\n  ") + "].")
+	c.Vm("Definition agrees (cs : nat * list op * list (list nat)) : bool :=\n  let '(n, ops, want) := cs in\n  let got := replay default_pagefun (oinit n true) 0 ops in\n  (if list_eq_dec (list_eq_dec Nat.eq_dec) (map fst got) want then true else false) && forallb snd got.")
+	c.Vm("Definition mismatches := filter (fun cs => negb (agrees cs)) cases.")
+	c.Vm("Definition M := Eval vm_compute in (length cases, mismatches).\nPrint M.")
+	c.Res.VmCases = len(c16VmCases)
 }
 
 func c16HistFails(c *core.Ctx, cs *c16HistCase) (bool, string) {
@@ -2558,6 +2620,7 @@ func runC16(c *core.Ctx) {
 	}
 	c.Note("rows read from Buffer.Rows() are only held while the buffer is unchanged (Buffer.Rows documents that reader and buffer share memory)")
 	c.Note("async read mode and churn goroutines run under the Go scheduler as it comes; schedules are explored, not enumerated")
+	c16VmWrite(c)
 }
 
 func replayC16(c *core.Ctx, raw json.RawMessage) {
